@@ -970,6 +970,8 @@ void gv::generate(const std::string& tier, uint64_t seed) {
       double tau = r.irange(0, 3) ? std::tan(r.range(-1.57, 1.57)) : (r.coin() ? 1 : -1) * std::pow(10.0, r.range(-12, 12));
       // the thresholds of tauf: |taup| > 70 (starting guess), |tau| >= 2/sqrt(eps) (early exit)
       if (r.irange(0, 9) == 0) { double v = r.pick(std::vector<double>{70.0, 2 / std::sqrt(EPS), 0.0, 1.0}); int j = r.irange(-2, 2); tau = (j < 0 ? nextdn(v, -j) : nextup(v, j)) * (r.coin() ? 1 : -1); }
+      // e^2 so close to 1 that the low-order guess taup/(1 - e^2) exceeds 2/sqrt(eps) although |taup| <= 70 (the early exit repaired by b3c5a1d)
+      if (r.irange(0, 19) == 0) { es = r.pick(std::vector<double>{0.9999999, 0.99999999, 1 - 1e-10}); tau = r.range(1, 70) * (r.coin() ? 1 : -1); }
       run("ctaupf", {hx(tau), hx(es)}); run("tauf", {hx(tau), hx(es)}); stratum("tauf-taupf");
     }
     // divided-difference helpers
